@@ -282,7 +282,7 @@ class FuncInfo:
             node = par
         return None
 
-    def expand(self, expr, depth=6, stop=()):
+    def expand(self, expr, depth=6, stop=(), rebound=False):
         """Substitute local temporaries by their defining expressions: names with a single definition, and names whose closest dominating
         assignment in straight-line code is unambiguous (`_rv = E; return _rv` in several branches)."""
         fi = self
@@ -294,18 +294,22 @@ class FuncInfo:
                     reach[(n.lineno, n.col_offset, n.id)] = v
 
         class T(ast.NodeTransformer):
-            def __init__(self, d):
+            def __init__(self, d, frozen=()):
                 self.d = d
+                self.frozen = frozen          # names that stand for the PARAMETER inside a rebinding `p = f(p)` already substituted
 
             def visit_Name(self, n):
-                if isinstance(n.ctx, ast.Load) and n.id not in stop and self.d > 0:
+                if isinstance(n.ctx, ast.Load) and n.id not in stop and n.id not in self.frozen and self.d > 0:
                     v = fi.unique_def(n.id)
                     if v is None:
                         v = reach.get((getattr(n, 'lineno', -1), getattr(n, 'col_offset', -1), n.id))
                         if v is None and n in fi.parents():
                             v = fi.reaching_def(n)
                     if v is not None and not any(isinstance(x, ast.Name) and x.id == n.id for x in ast.walk(v)):
-                        return T(self.d - 1).visit(_copy(v))
+                        return T(self.d - 1, self.frozen).visit(_copy(v))
+                    if rebound and v is not None and n.id in fi.params + fi.kwonly and sum(1 for k_, *_ in fi.defs().get(n.id, []) if k_ != 'param') == 1:
+                        # `p = f(p)` on a parameter, rebound once: the inner p is the argument as given
+                        return T(self.d - 1, self.frozen + (n.id,)).visit(_copy(v))
                 return n
 
             def visit_Lambda(self, n):
